@@ -151,8 +151,31 @@ func genConcPlan(prop string, seed uint64, tier string) *Plan {
 	if wide {
 		nKeys = r.Range(10, 20)
 	}
+	if prop == "C13" {
+		// concurrent *benign* collision world: sets with unique values and gets only, no
+		// check_vhash (nothing a recorded finding of C13 can act through), one bucket
+		c.CheckVHash = false
+		c.Served = c.Served[:1]
+		nKeys = r.Range(4, 8)
+	}
 	p.Keys = genKeys(r, c, nKeys, 0)
+	if prop == "C13" {
+		perm := r.Perm(len(p.Keys))
+		pos := 0
+		for gi := r.Range(1, 2); gi > 0; gi-- {
+			sz := r.Range(2, 3)
+			if pos+sz > len(perm) {
+				break
+			}
+			p.Groups = append(p.Groups, append([]int(nil), perm[pos:pos+sz]...))
+			pos += sz
+		}
+		p.Extra["benignCollide"] = 1
+	}
 	nClients := r.Range(2, 16)
+	if prop == "C13" {
+		nClients = r.Range(2, 6)
+	}
 	if prop == "C05" {
 		nClients = r.Range(1, 6)
 	}
@@ -178,6 +201,22 @@ func genConcPlan(prop string, seed uint64, tier string) *Plan {
 			p.Keys = genKeys(r, c, r.Range(18, 30), 0) // more keys than preload writes: most records stay live
 			p.Extra["overflowLayout"] = 1
 			nClients = r.Range(1, 2) // (few concurrent overwrites: the preload's records stay live)
+		}
+	}
+	if prop == "C13" && r.Bool(2, 3) {
+		// a few sets first (the collision is on disk, undiscovered, when the clients start)
+		for i := r.Range(2, 8); i > 0; i-- {
+			id++
+			k := r.Intn(len(p.Keys))
+			if r.Bool(2, 3) && len(p.Groups) > 0 {
+				grp := p.Groups[r.Intn(len(p.Groups))]
+				k = grp[r.Intn(len(grp))]
+			}
+			p.Ops = append(p.Ops, Op{ID: id, Kind: "set", K: k, V: ValSpec{Class: r.Pick(VConst, VText, VRandom), Len: r.Pick(10, 100, 250), Seed: uint32(r.U64())}})
+			if r.Bool(1, 4) {
+				id++
+				p.Ops = append(p.Ops, Op{ID: id, Kind: "flush"})
+			}
 		}
 	}
 	if prop == "C05" || prop == "C17" {
@@ -224,7 +263,15 @@ func genConcPlan(prop string, seed uint64, tier string) *Plan {
 				continue
 			}
 			perKey[op.K]++
-			switch r.Weighted([]int{40, 12, 35, 13, 6}) {
+			wts := []int{40, 12, 35, 13, 6}
+			if prop == "C13" {
+				wts = []int{45, 0, 55, 0, 0} // sets and gets only
+				if r.Bool(2, 3) && len(p.Groups) > 0 {
+					grp := p.Groups[r.Intn(len(p.Groups))]
+					op.K = grp[r.Intn(len(grp))]
+				}
+			}
+			switch r.Weighted(wts) {
 			case 4:
 				// the value of an earlier write of this key again, with an explicit larger revision: under
 				// check_vhash this raises the version in the index only (no record is written)
@@ -580,6 +627,10 @@ func runConc(plan *Plan, tape *simrt.Tape) *Outcome {
 		x.lastFS[ev.Task] = ev.Step
 		x.maybeInject(g, ev)
 	}
+	if len(plan.Groups) > 0 {
+		installCollisions(plan)
+		defer func() { hashOverride = nil }()
+	}
 	all := append([][]Op{plan.Ops}, plan.Clients...)
 	for _, l := range all {
 		for _, op := range l {
@@ -811,7 +862,13 @@ func runConc(plan *Plan, tape *simrt.Tape) *Outcome {
 		w.WaitIdle()
 		g.H.VerifFlush(true)
 		w.WaitIdle()
-		x.finalCheck("quiescent")
+		if plan.Prop == "C13" {
+			for k := range plan.Keys {
+				x.doOp(98, Op{ID: 950000 + k, Kind: "get", K: k})
+			}
+		} else {
+			x.finalCheck("quiescent")
+		}
 		if x.viol != nil {
 			return
 		}
@@ -891,13 +948,22 @@ func runConc(plan *Plan, tape *simrt.Tape) *Outcome {
 		}
 		g2, res2 := sim.Run(func(g *Gen) {
 			x.g = g
-			x.finalCheck("after-restart")
+			if plan.Prop == "C13" {
+				for k := range plan.Keys {
+					x.doOp(99, Op{ID: 960000 + k, Kind: "get", K: k})
+				}
+			} else {
+				x.finalCheck("after-restart")
+			}
 		})
 		if g2.OpenErr != nil {
 			x.fail("R-open-failed", "", "NewHStore after clean shutdown: "+g2.OpenErr.Error())
 		} else if res2.Status != simrt.StatusDone && res2.Status != simrt.StatusStepCap {
 			x.fail("R-"+simrt.StatusName(res2.Status), "restart", res2.String())
 		}
+	}
+	if x.viol == nil && finished && plan.Prop == "C13" {
+		x.checkHistory() // (now including the reads after the restart)
 	}
 	if os.Getenv("VERIF_DEBUG") != "" {
 		for _, h := range x.hist {
@@ -1139,6 +1205,34 @@ type regOut struct {
 	Noop bool
 }
 
+// valueModel (C13 concurrent worlds): versions of keys sharing a hash are unspecified, so the
+// register only carries the identity of the value: a set always takes effect, a get returns the
+// value of the latest set (or a miss before the first one).
+func (x *concExec) valueModel() porcupine.Model {
+	return porcupine.Model{
+		Init: func() interface{} { return 0 },
+		Step: func(state, input, output interface{}) (bool, interface{}) {
+			s := state.(int)
+			in := input.(regIn)
+			o := output.(regOut)
+			switch in.Kind {
+			case "set":
+				return !o.Noop, in.WID
+			case "get":
+				if o.Miss {
+					return s == 0, s
+				}
+				return s != 0 && s == o.WID, s
+			}
+			return false, s
+		},
+		Equal: func(a, b interface{}) bool { return a.(int) == b.(int) },
+		DescribeOperation: func(input, output interface{}) string {
+			return fmt.Sprintf("%+v -> %+v", input, output)
+		},
+	}
+}
+
 func (x *concExec) model() porcupine.Model {
 	vh := map[int]uint16{}
 	for id, v := range x.valOf {
@@ -1246,6 +1340,9 @@ func (x *concExec) checkHistory() {
 		byKey[h.Key] = append(byKey[h.Key], porcupine.Operation{ClientId: h.Client + 1, Input: in, Call: h.Call, Output: o, Return: h.Ret})
 	}
 	m := x.model()
+	if x.plan.Prop == "C13" {
+		m = x.valueModel()
+	}
 	for k := 0; k < len(x.plan.Keys); k++ {
 		ops := byKey[k]
 		if len(ops) == 0 {
